@@ -5,6 +5,7 @@ from vlib.core import Case
 ID = "C20"
 LEAN_TARGETS = ["ZmqVerif.Props.C20"]
 IMPL_ENV = netgen.net_env()
+ESCALATE_ROUNDS = 0  # extra seeded rounds of the random families when /repo differs from the validated baseline
 RULE = (
     "real multi-thread tokio runtime, real TCP + IPC listeners of every bound socket type, raw clients that at byte "
     "offset k of greeting+READY either STOP (stay silent), CLOSE, or switch to GARBAGE: k over a boundary grid (quick: "
